@@ -341,6 +341,13 @@ func TestC18(t *testing.T) {
 							}
 						}
 					}
+					if rapid.IntRange(0, 4).Draw(rt, "pathLikeFrom") == 0 {
+						// the sender field is a free string: path-like spellings that point into somebody else's inbox
+						third := drawAcc(rt, "thirdParty")
+						from := rapid.SampledFrom([]string{"../" + n.To + "/" + n.From, "../../" + n.To + "/" + n.From, "./../" + n.To + "/" + n.From, n.From + "/../../" + n.To + "/" + n.From}).Draw(rt, "from")
+						w.delete(third, from, n.Time)
+						return
+					}
 					w.delete(signer, n.From, n.Time)
 					return
 				}
